@@ -369,6 +369,14 @@ func (fc *followerController) Replicate(stream proto.OxiaLogReplication_Replicat
 		return constant.ErrLeaderAlreadyConnected
 	}
 
+	// Entries appended through a previous stream that ended before their sync round are
+	// not durable yet. The leader will send them again: make them durable first, because
+	// a duplicate is acknowledged right away.
+	if err := fc.wal.Sync(stream.Context()); err != nil {
+		fc.Unlock()
+		return err
+	}
+
 	closeStreamWg := concurrent.NewWaitGroup(1)
 	fc.closeStreamWg = closeStreamWg
 	fc.Unlock()
